@@ -271,14 +271,7 @@ Proof.
 Qed.
 
 (* the runs recorded in the state are exactly the firings of the history *)
-Fixpoint d_fire_log (prev : option Z) (h : list devent) : list (Z * Z) :=
-  match h with
-  | [] => []
-  | DCall _ f :: h' => d_fire_log (Some f) h'
-  | DCancel _ :: h' => d_fire_log None h'
-  | DFire _ t :: h' =>
-      match prev with Some f => (t, f) :: d_fire_log None h' | None => d_fire_log None h' end
-  end.
+(* [d_fire_log] is defined in C20_Model.v *)
 
 Lemma d_runs_log_gen : forall h s s',
   d_run s h = Some s' ->
